@@ -236,7 +236,12 @@ def main(argv=None):
             ev["warm"] = True      # the shard had used the library's other classes first (needed to replay)
         keep = res["verdict"] not in (HELD,)
         key = (res["verdict"],) + tuple(sorted(res["tags"]))[:4]
-        huge = isinstance(case, dict) and any(isinstance(case.get(k_), list) and len(case[k_]) > 2000 for k_ in ("lens", "vals", "samples", "keys"))
+        huge = isinstance(case, dict) and any(isinstance(v_, (list, tuple, str)) and len(v_) > 2000 for v_ in case.values())        # (bodies of big cases are kept only when they are needed for a replay)
+        if not huge and isinstance(case, dict):
+            try:
+                huge = len(json.dumps(codec.enc(case), allow_nan=False)) > 40000
+            except Exception:
+                huge = True
         if not keep and kept.get(key, 0) < 2 and len(kept) < 400 and not huge:
             keep = True
         if keep:
